@@ -4,8 +4,9 @@
      m[v]      the rule matched;  norms[v] the request's matching form;  locs[v] the Location header;
      clocs[v]  the Location header of a catch-all rule /@rest -> /n/@rest on the same request
      idem[v]   <<rebuild(rebuild(q)) = rebuild(q), match after rebuild>>
+     mm[v]     a twin rule with the same literal path and query that declares markers (one used by its host "@sub.com", one by nothing) matched
    classes (C09): url_match_wrong, marketing_off_request_not_normalised (known), case_fold_after_sort,
-                  marketing_params_forwarding, rebuild_not_idempotent                         *)
+                  marketing_params_forwarding, rebuild_not_idempotent, declared_marker_changes_literal_match                        *)
 EXTENDS MC_Url, IOUtils
 TraceLog == ndJsonDeserialize(IOEnv.TRACE)
 \* the URL universe in the order the harness used it (printed by the model-checking run)
@@ -37,7 +38,7 @@ PairDrift(e, c, r, rf, i) ==
 TraceUrl ==
   /\ IsEvent("url")
   /\ LET e == TraceLog[l]
-         c == [mkt |-> e.cfg.mkt, icase |-> e.cfg.icase, pass |-> e.cfg.pass, mparams |-> {<<"utm_source">>}]
+         c == [mkt |-> e.cfg.mkt, icase |-> e.cfg.icase, pass |-> e.cfg.pass, ms |-> e.cfg.ms, mparams |-> MSet(e.cfg.ms)]
          r == Univ[e.ru]
          rf == RuleForm(r, c)
          cr == Canonical(r, c)
@@ -47,6 +48,7 @@ TraceUrl ==
          drift == {i \in 1..Len(Univ) : PairDrift(e, c, r, rf, i)}
      IN /\ Drift(e.rule_norm = JoinStr(rf, 1), "rule_form")
         /\ \A cls \in classes : PrintT(<<"VERDICT", l, cls, Cardinality({b \in bad : b[2] = cls})>>)
+        /\ Judge(\A i \in 1..Len(Univ) : e.mm[i] = e.m[i], "declared_marker_changes_literal_match")
         /\ Drift(drift = {}, "request_form_or_match")
   /\ UNCHANGED vars
 TracePanic == IsEvent("panic") /\ Report("VERDICT", "panic") /\ UNCHANGED vars
